@@ -188,6 +188,8 @@ var zzC19Corpus = []string{
 	/* 30 */ "<pre><code>\nfunc main() {\n\tgo()\n}\n</code></pre>",
 	/* 31 */ "<pre>\n\nfirst line after a blank one</pre><pre><span>\n x</span>\n<b>y\n</b></pre>",
 	/* 32 */ "<div><textarea>\n\n two</textarea></div>",
+	// text outside ASCII
+	/* 33 */ "<p title=\"naïve — “quoted” 日本語\">Füße &amp; Ærøskøbing – 東京 🙂 {{ größe > 1 ? 'ü' : 'ö' }}</p><pre>  日本\n 語 </pre>",
 }
 
 func zzSig(nodes []*html.Node) string {
